@@ -233,6 +233,8 @@ class Exec:
     def init_files(self):
         plan = self.plan
         os.makedirs(self.work, exist_ok=True)
+        if plan["knobs"].get("symlink") and not os.path.lexists(os.path.join(self.root, "lnk")):
+            os.symlink(self.work, os.path.join(self.root, "lnk"))
         for fname, f in plan["files"].items():
             ref = self.ref[bool(f.get("log_times"))]
             init = f.get("initial", "absent")
@@ -311,6 +313,9 @@ class Exec:
                 # the name handed to the constructor may lack the extension (the library adds
                 # ".tsv") - the file it must produce is `fname` either way
                 target = os.path.join(self.work, f.get("given", fname))
+                if plan["knobs"].get("symlink"):
+                    # the output directory is reached through a symbolic link
+                    target = os.path.join(self.root, "lnk", f.get("given", fname))
                 if plan["knobs"].get("relpath"):
                     # the phase image's working directory is the output directory
                     target = plan["knobs"]["relpath"] + f.get("given", fname)
